@@ -845,8 +845,19 @@ func (vm *VirtualMachine) callFunction(
 	baseIP := vm.ip
 	baseSP := vm.sp
 
-	// Restore the previous frame when done
-	defer vm.resumeFrame(baseFP, baseIP, baseSP)
+	// Restore the previous frame when done. If the call failed, whatever it
+	// left on the stack (it may have been in the middle of an expression) is
+	// discarded rather than mistaken for a result.
+	defer func() {
+		if vm.sp >= MaxStackDepth {
+			vm.sp = MaxStackDepth - 1 // a stack overflow panic is unwinding
+		}
+		for vm.sp > baseSP {
+			vm.stack[vm.sp] = nil
+			vm.sp--
+		}
+		vm.resumeFrame(baseFP, baseIP, baseSP)
+	}()
 
 	// Assemble frame local variables in vm.tmp. The local variable order is:
 	// 1. Function parameters
